@@ -18,14 +18,18 @@ git diff > /verif/seeded/$ID/patch.diff
 cp demo.py /verif/seeded/$ID/demo.py
 cp notes.txt /verif/seeded/$ID/notes.txt 2>/dev/null
 cd /verif
-git -C /repo apply /verif/seeded/$ID/patch.diff || { echo "PATCH DOES NOT APPLY TO /repo"; exit 8; }
+# USE_WORKTREE=1: check the sub-agent's worktree itself (--repo) instead of applying the patch to /repo
+# (for when another run is using /repo); the patch is still verified to apply to /repo
+git -C /repo apply --check /verif/seeded/$ID/patch.diff || { echo "PATCH DOES NOT APPLY TO /repo"; exit 8; }
+REPOARG=""
+if [ -n "$USE_WORKTREE" ]; then REPOARG="--repo $W"; else git -C /repo apply /verif/seeded/$ID/patch.diff; fi
 RES=""
 for Q in $P "$@"; do
-  OUT=$(bin/check $Q --no-evidence 2>&1 | grep -E "^C[0-9]+:|VIOLATION|UNDECIDED|FAULT" | head -6)
+  OUT=$(bin/check $Q --no-evidence $REPOARG 2>&1 | grep -E "^C[0-9]+:|VIOLATION|UNDECIDED|FAULT" | head -6)
   echo "--- check $Q with the change applied:"; echo "$OUT"
   RES="$RES $Q:$(echo "$OUT" | grep -c VIOLATION)"
 done
-git -C /repo checkout -- .
+if [ -z "$USE_WORKTREE" ]; then git -C /repo checkout -- .; fi
 git -C /repo status --short | head -3
 python3 - "$ID" "$P" "$T_BEFORE" "$T_AFTER" "$D_ORIG" "$D_CHANGED" "$RES" <<'PY'
 import json, sys, os
